@@ -11,6 +11,9 @@ from .treejson import E
 EPOCH_TICKS = 306 * 86400 * 8     # ticks (1/8 s) between 0000-03-01 (the model's epoch) and 0001-01-01
 
 
+ZONE_UNIT = 2 ** 60                # the model's zoneUnit
+
+
 class Unrepresentable(Exception):
     pass
 
@@ -18,13 +21,22 @@ class Unrepresentable(Exception):
 def ticks(dt):
     if dt is None:
         return None
-    if not isinstance(dt, datetime) or dt.tzinfo is not None:
+    if not isinstance(dt, datetime):
         raise Unrepresentable(repr(dt))
+    zone = 0
+    if dt.tzinfo is not None:
+        # an aware datetime: the wall-clock fields plus the zone (the model's code: 1 + 1440 + offset in minutes)
+        off = dt.utcoffset()
+        secs = off.days * 86400 + off.seconds
+        if off.microseconds or secs % 60:
+            raise Unrepresentable(repr(dt))
+        zone = 1 + 1440 + secs // 60
+        dt = dt.replace(tzinfo=None)
     delta = dt - datetime(1, 1, 1)
     us = (delta.days * 86400 + delta.seconds) * 10 ** 6 + delta.microseconds
     if us % 125000:
         raise Unrepresentable(repr(dt))
-    return us // 125000 + EPOCH_TICKS
+    return us // 125000 + EPOCH_TICKS + ZONE_UNIT * zone
 
 
 def eighths(x):
@@ -78,6 +90,7 @@ def read_view(ro):
 FIELDS = ('duration', 'text_time', 'media_time', 'started', 'ended')
 STARTS = ['2021-03-04T10:00:00', '2021-03-04T10:07:30', '2020-02-29T23:59:59']
 ENDS = ['2021-03-04T10:05:00', '2021-03-04T11:00:00', '2020-03-01T00:00:10']
+ZONES = ['', '', 'Z', '+00:00', '+01:00', '-05:30', '+13:45']
 DURS = ['0', '3', '2.5', '12.25', '0.125', '60', '31']
 
 
@@ -94,6 +107,15 @@ def story_md_variants():
     return out
 
 
+def _zoned(t, zone):
+    """The same document with a zone designator appended to every time field."""
+    t = list(t)
+    if t[0] in ('roEdStart', 'StoryStarted', 'StoryEnded') and t[2]:
+        t[2] = t[2] + zone()
+    t[4] = [_zoned(c, zone) for c in t[4]]
+    return t
+
+
 def time_cases(tier, rng):
     variants = story_md_variants()
     out = []
@@ -103,13 +125,24 @@ def time_cases(tier, rng):
         for ed in (None, '2021-03-04T09:00:00'):
             out.append((f'1 story {lbl} roEdStart={ed is not None}',
                         B.ro_doc([B.story('A', bodies[1], md=md)], ed_start=ed)))
+    for (lbl, md) in variants:
+        if 'started' in lbl or 'ended' in lbl:
+            for z in ZONES[2:]:
+                out.append((f'1 story {lbl} zone={z}', _zoned(B.ro_doc([B.story('A', bodies[1], md=md)], ed_start='2021-03-04T09:00:00'),
+                                                             lambda z=z: z)))
+            out.append((f'1 story {lbl} zone on roEdStart only',
+                        B.ro_doc([B.story('A', bodies[1], md=md)], ed_start='2021-03-04T09:00:00+02:00')))
+            out.append((f'1 story {lbl} zone on the story only',
+                        B.ro_doc([_zoned(B.story('A', bodies[1], md=md), lambda: '-03:00'), B.story('B', [], md=B.timing_md(duration='4'))],
+                                 ed_start='2021-03-04T09:00:00')))
     # several stories: combinations
     n_multi = 150 if tier == 'quick' else 20000
     for k in range(n_multi):
         n = rng.randrange(2, 6)
         ids = [f'S{i}' for i in range(n)]
-        if rng.random() < 0.1:
-            ids[-1] = ids[0]                 # duplicate story ID (offset table keyed by ID)
+        if rng.random() < 0.2:
+            a, b = rng.sample(range(n), 2)
+            ids[a] = ids[b]                  # duplicate story ID (offset table keyed by ID)
         sts = []
         lbls = []
         for sid in ids:
@@ -117,8 +150,15 @@ def time_cases(tier, rng):
             lbls.append(lbl)
             sts.append(B.story(sid, rng.choice(bodies), md=md, slug=rng.random() < 0.8))
         ed = rng.choice([None, '2021-03-04T09:00:00', '2019-12-31T23:59:59'])
-        out.append((f'{n} stories [{", ".join(lbls)}] roEdStart={ed is not None}',
-                    B.ro_doc(sts, ed_start=ed, pattern=rng.choice(B.PATTERNS))))
+        doc = B.ro_doc(sts, ed_start=ed, pattern=rng.choice(B.PATTERNS))
+        zl = ''
+        if rng.random() < 0.3:
+            # times written with a zone designator (one zone for the document, or a different one per field)
+            one = rng.choice(ZONES[2:])
+            per_field = rng.random() < 0.4
+            zl = ' zones=' + ('mixed' if per_field else one)
+            doc = _zoned(doc, lambda: rng.choice(ZONES) if per_field else one)
+        out.append((f'{n} stories [{", ".join(lbls)}] roEdStart={ed is not None}{zl}', doc))
     out.append(('no stories', B.ro_doc([], ed_start='2021-03-04T09:00:00')))
     out.append(('no stories, no start', B.ro_doc([])))
     return out
@@ -175,6 +215,39 @@ def script_cases(tier, rng):
     return out
 
 
+def item_cases():
+    """Item read accessors: the note is the first studioCommand of type 'note' ANYWHERE under the item's
+    mosPayload; slug / object ID / MOS ID / type absent, blank or repeated."""
+    note = lambda text='a note', typ='note', **kw: E('studioCommand', E('text', text=text), attrs={'type': typ} if typ is not None else {}, **kw)
+    wrap = lambda *c: E('wrapper', *c)
+    payloads = [
+        ('direct', [note()]), ('nested once', [wrap(note())]), ('nested twice', [wrap(E('inner', note('deep')))]),
+        ('nested before direct', [wrap(note('nested first')), note('direct second')]),
+        ('direct before nested', [note('direct first'), wrap(note('nested second'))]),
+        ('other type first', [note('cue', typ='cue'), wrap(note('the note'))]),
+        ('no type attribute', [note('untyped', typ=None), wrap(wrap(note('typed')))]),
+        ('note without text element', [E('studioCommand', attrs={'type': 'note'})]),
+        ('note with blank text', [wrap(note(None))]),
+        ('upper-case type', [note('upper', typ='NOTE')]),
+        ('note inside another note', [E('studioCommand', wrap(note('inner')), attrs={'type': 'note'})]),
+        ('empty payload', []),
+    ]
+    out = []
+    for lbl, pl in payloads:
+        md = E('mosExternalMetadata', E('mosSchema', text='s'), E('mosPayload', *pl))
+        items = [B.item('I1', extra=[md]), B.item('I2'), B.item('I3', extra=[E('mosExternalMetadata', E('mosSchema', text='x')), md])]
+        out.append((f'item note: {lbl}', B.ro_doc([B.story('A', [items[0], B.p('text'), items[1], items[2]], md=B.timing_md(duration='1'))])))
+    # a note outside mosPayload / outside mosExternalMetadata is not the item's note
+    out.append(('item note: outside payload', B.ro_doc([B.story('A', [B.item('I1', extra=[E('mosExternalMetadata', note('outside payload'), E('mosPayload'))]),
+                                                                        B.item('I2', extra=[note('outside metadata')])])])))
+    for lbl, ch in (('no optional fields', [E('itemID', text='I1')]),
+                    ('blank optional fields', [E('itemID', text='I1'), E('itemSlug'), E('objID'), E('mosID'), E('objType')]),
+                    ('repeated fields', [E('itemID', text='I1'), E('itemSlug', text='first'), E('itemSlug', text='second'), E('objID', text='o1'),
+                                         E('objID', text='o2'), E('objType', text='VIDEO'), E('mosID', text='m')])):
+        out.append((f'item fields: {lbl}', B.ro_doc([B.story('A', [E('item', *ch)])])))
+    return out
+
+
 def junk_cases():
     """Outside the domain: unreadable optional data (compared crash kind for crash kind, for information)."""
     out = []
@@ -191,10 +264,10 @@ def evaluate(pid, tier, seed):
     oc = Outcome(pid)
     rng = random.Random(seed * 977 + 3)
     cases = []
-    if pid in ('C15', 'C16'):
-        cases += time_cases(tier, rng)
+    cases += time_cases(tier, rng)
     if pid in ('C15', 'C17'):
         cases += script_cases(tier, rng)
+    cases += item_cases()
     cases += junk_cases()
     # G-fuzz: structural mutations of those documents (look-alikes, blanked IDs, duplicates, re-tagged children)
     fz = []
